@@ -7,7 +7,7 @@ from vlib import CheckError
 STAT_NAMES = ["gate_drop", "mac1_drop", "cookie_reply", "rate_limited", "consumed_under_load",
               "consumed_not_under_load", "payload_rejected", "cookie_reply_consumed", "cookie_reply_rejected",
               "transport_authentic", "transport_rejected", "device_initiation_mac2_zero",
-              "device_initiation_with_mac2", "tun_without_initiation", "secret_refreshed", "response_with_mac2"]
+              "device_initiation_with_mac2", "tun_without_initiation", "secret_refreshed", "response_with_mac2", "identity_changed"]
 
 
 class Prop:
